@@ -32,6 +32,7 @@ func main() {
 	tier := flag.String("tier", "quick", "tier")
 	replay := flag.String("replay", "", "file with cases (JSON lines) to re-run instead of generating")
 	corpus := flag.String("corpus", "", "file with corpus cases (JSON lines) to run first")
+	genOnly := flag.Bool("gen-only", false, "print the generated cases without running them")
 	flag.Parse()
 	f, ok := families[*fam]
 	if !ok {
@@ -53,7 +54,10 @@ func main() {
 		if f.prep != nil {
 			f.prep(c2)
 		}
-		c2["go"] = safeRun(f, c2)
+		if !*genOnly {
+			fmt.Fprintf(os.Stderr, "CASE %v\n", c2["id"])
+			c2["go"] = safeRun(f, c2)
+		}
 		b, err := json.Marshal(c2)
 		if err != nil {
 			panic(err)
